@@ -94,9 +94,9 @@ Proof.
   match goal with |- context [if ?b then el_read f cid (recv + n) w5 else _] => destruct b end.
   - apply IH. eapply Inv_weaken; [apply (I_assert_opened c0 [] P N w5 cid H5 Ho5)|].
     intros c _ [HR HF]. split; [exact HR|right; exact HF].
-  - match goal with |- context [if ?b then trigger true (TRead0 cid) w5 else _] => destruct b end;
+  - match goal with |- context [if ?b then trigger true (TRead0 cid) _ else _] => destruct b end;
       [|exact H5].
-    apply I_trigger_rel; [reflexivity|exact H5].
+    apply I_trigger_rel; [reflexivity|]. apply I_ghost; [cbn; tauto|exact H5].
 Qed.
 
 
@@ -148,9 +148,9 @@ Proof.
     + destruct (c_out (wc w3 cid)) as [|o0 out].
       * apply I_open_loop. exact H.
       * cbn [snd]. apply I_wsetc_X; auto. intros m [Hlt Ho]. apply At_setc; [exact Ho|split; auto].
-  - set (w3' := ghost "openreply" cid [] (ghost "sub" cid data w3)).
+  - set (w3' := ghost "sub" cid data w3).
     assert (H' : Iv (RelX [] P N (Opened cid)) w3').
-    { apply I_ghost; [cbn; tauto|]. apply I_ghost; [cbn; tauto|]. exact H. }
+    { apply I_ghost; [cbn; tauto|]. exact H. }
     destruct (c_out (wc w3 cid)) as [|o0 out] eqn:Hout.
     + apply I_open_loop. exact H'.
     + cbn [snd]. apply I_wsetc_X; try (unfold w3'; rewrite !wc_ghost; reflexivity); [|exact H'].
@@ -163,22 +163,21 @@ Lemma I_open_tail : forall fuel cid act ok w4 P N,
   Iv (RelX [] P N (Opened cid)) w4 -> Iv (Rel [] P N) (snd (open_tail fuel cid act ok w4)).
 Proof.
   intros fuel cid act ok w4 P N H. unfold open_tail. cbv zeta.
-  set (w4' := ghost "openreply-end" cid [] w4).
-  assert (H' : Iv (RelX [] P N (Opened cid)) w4') by (apply I_ghost; [cbn; tauto|exact H]).
-  assert (Hr : Iv (Rel [] P N) w4') by (eapply Iv_X_Rel; exact H').
-  destruct ok; cbn [negb]; [|exact Hr].
+  assert (Hr : Iv (Rel [] P N) w4) by (eapply Iv_X_Rel; exact H).
+  destruct ok; cbn [negb]; [|apply I_el_close; exact Hr].
   assert (Htail : forall r5 w5, Iv (Rel [] P N) w5 ->
      Iv (Rel [] P N) (snd (match r5 with
        | RNil => match act with ANone => (RNil, w5) | AClose => el_close fuel cid true w5
                  | AShutdown => (RShutdown, w5) end
-       | r => (r, w5) end))).
-  { intros r5 w5 H5. destruct r5; try exact H5. destruct act; try exact H5. apply I_el_close; exact H5. }
-  destruct (c_out (wc w4' cid)) as [|o0 out]; [exact (Htail RNil w4' Hr)|].
-  destruct (l_et (st w4')); [exact (Htail RNil w4' Hr)|].
-  destruct (epctl "mod" (c_fd (wc w4' cid)) true false w4') as [r5 w5] eqn:He.
+       | _ => el_close fuel cid false w5 end))).
+  { intros r5 w5 H5. destruct r5; try (apply I_el_close; exact H5).
+    destruct act; try exact H5. apply I_el_close; exact H5. }
+  destruct (c_out (wc w4 cid)) as [|o0 out]; [exact (Htail RNil w4 Hr)|].
+  destruct (l_et (st w4)); [exact (Htail RNil w4 Hr)|].
+  destruct (epctl "mod" (c_fd (wc w4 cid)) true false w4) as [r5 w5] eqn:He.
   apply (Htail r5 w5). eapply Iv_X_Rel.
-  eapply (I_epctl_open c0 [] P N cid (c_fd (wc w4' cid)) "mod"); [cbn; tauto| |exact He].
-  apply I_opened_fd. exact H'.
+  eapply (I_epctl_open c0 [] P N cid (c_fd (wc w4 cid)) "mod"); [cbn; tauto| |exact He].
+  apply I_opened_fd. exact H.
 Qed.
 
 Definition Freg (cid fd0 : Z) (c : conn) :=
@@ -451,10 +450,13 @@ Lemma I_dispatch : forall fuel fd ev w, Iv Top w -> Iv Top (snd (dispatch fuel f
 Proof.
   intros fuel fd ev w H. unfold dispatch.
   destruct (alookup fd (l_reg (st w))) as [cid|] eqn:Hreg.
-  - apply I_process_io; exact H.
+  - destruct (polopt (st w) && c_udp (wc w cid)).
+    + apply I_el_read_udp; [exact H|discriminate|intros _; eauto].
+    + apply I_process_io; exact H.
   - destruct (alookup fd (l_listeners (st w))) as [is_udp|] eqn:Hlis.
     + apply I_el_accept; [exact H|]. eapply alookup_some_in; eauto.
-    + destruct (epctl "del" fd false false w) as [r w1] eqn:He. cbn [snd].
+    + destruct (polopt (st w)); [exact H|].
+      destruct (epctl "del" fd false false w) as [r w1] eqn:He. cbn [snd].
       apply Iv_Rel_X. eapply (I_epctl c0 [] [] [] Tr "del"); [apply Stable_Tr|cbn; tauto|apply Iv_Rel_X; exact H| |exact He].
       intros m cs _ _ Hne. congruence.
 Qed.
@@ -618,9 +620,15 @@ Proof.
   apply IH. assert (Hx := I_el_close c0 f cid true w1 [] [] [] HP). rewrite He in Hx. exact Hx.
 Qed.
 
+Definition pending_marks (w : world) : world :=
+  fold_left (fun w fc => if c_udp (wc w (snd fc)) then w else
+                         emit ("g", [ASym "pending"; AInt (snd fc); AInt (fst fc);
+                                     AInt (zlen (c_out (wc w (snd fc))))]) w) (l_reg (st w)) w.
+
 Lemma polling_S_eqb : forall f w,
   polling (S f) w =
   let w := emit ("g", [ASym "count"; AInt (zlen (l_reg (st w))); ABytes []]) w in
+  let w := pending_marks w in
   match pull w with
   | (None, w1) => w1
   | (Some l, w1) =>
@@ -653,8 +661,13 @@ Proof.
   { unfold w0. eapply Inv_emit; [exact H|reflexivity|]. intros [m cs] _ HR.
     exists (m, cs). split; [|exact HR]. apply pstep_count.
     symmetry. apply (r_count _ _ _ _ _ (proj1 HR)). }
-  destruct (pull w0) as [o w1] eqn:Hp.
-  assert (HP := I_pull c0 [] [] [] Tr false w0 o w1 Stable_Tr (proj1 (Iv_Rel_X c0 [] [] [] w0) H0) Hp).
+  assert (H0' : Iv Top (pending_marks w0)).
+  { unfold pending_marks. generalize (l_reg (st w0)). intros rl. revert H0. generalize w0.
+    induction rl as [|fc rl IHr]; intros wx Hx; cbn [fold_left]; [exact Hx|].
+    apply IHr. destruct (c_udp (wc wx (snd fc))); [exact Hx|].
+    apply I_quiet; [apply quiet_pending|reflexivity|exact Hx]. }
+  destruct (pull (pending_marks w0)) as [o w1] eqn:Hp.
+  assert (HP := I_pull c0 [] [] [] Tr false _ o w1 Stable_Tr (proj1 (Iv_Rel_X c0 [] [] [] _) H0') Hp).
   destruct o as [l|]; [|apply HP]. apply Iv_Rel_X in HP.
   destruct (String.eqb (fst l) "wait"); [|eapply Inv_desync; exact HP].
   destruct (events f (snd l) false w1) as [[r b] w2] eqn:He.
